@@ -672,6 +672,18 @@ func generate(repo, out string) error {
 		return err
 	}
 
+	// 4q. the per-row loops of Apply and Aggregate as terms of QF.LFn / QF.GFn (last.go)
+	if err := writeIfChanged(filepath.Join(out, "Loops.lean"), []byte(loopsLean(repo, colPkgs, root))); err != nil {
+		return err
+	}
+
+	// 4r. the index and column-list work of Slice / Select / Drop / Copy / Sort / Distinct and the functions of internal/index as terms of QF.PF (pxast.go)
+	if err := writeIfChanged(filepath.Join(out, "Project.lean"), []byte(projectLean(repo, root, func(p string) map[string]*ast.File {
+		return parseDir(filepath.Join(repo, "internal", p))
+	}))); err != nil {
+		return err
+	}
+
 	// 4m. the three writers of qframe.go (ToJSON, ToCSV, String) as terms of QF.JS / QF.CS / QF.PS (wast.go)
 	if err := writeIfChanged(filepath.Join(out, "Writers.lean"), []byte(writersLean(repo, root, strs))); err != nil {
 		return err
